@@ -34,7 +34,7 @@ REQUIRED_LABELS = ["hp_matrix", "hp_rhs_and_split", "hp_optimality", "wrapper_cy
 
 
 def bounds(tier):
-    return {"quick": "series length 3..8, lambda symbolic > 0", "thorough": "series length 3..24"}[tier]
+    return {"quick": "series length 3..8, lambda symbolic > 0", "thorough": "series length 3..24, 32, 40, 48"}[tier]
 
 
 class Dense:
@@ -272,9 +272,9 @@ def precheck(tier, seed):
 
 
 def cases(tier, seed):
-    ns = range(3, 9) if tier == "quick" else range(3, 25)
+    ns = range(3, 9) if tier == "quick" else list(range(3, 25)) + [32, 40, 48]
     cs = [case_hp(n) for n in ns]
-    cs += [case_wrappers(n) for n in (list(ns)[:4] if tier == "quick" else [3, 4, 5, 6, 8, 12, 16])]
+    cs += [case_wrappers(n) for n in (list(ns)[:4] if tier == "quick" else [3, 4, 5, 6, 8, 12, 16, 24, 32])]
     return cs
 
 
